@@ -32,6 +32,7 @@ ASSUMPTIONS = [
 EDIT = st.tuples(st.sampled_from(["dup_id", "dup_id_doc", "clone_keep_id", "type", "unname", "dep_existing",
                                   "dep_missing", "dep_subsection", "card_on", "card_below", "card_above",
                                   "force_dup_secname", "force_dup_propname", "force_bad_value", "joined_pair", "joined_pair",
+                                  "link", "link_type",
                                   "dep_existing", "dep_existing"]),
                  st.integers(0, 30), st.integers(0, 30), st.integers(0, 5)).map(list)
 
@@ -78,6 +79,18 @@ def apply_edit(doc, edit):
                     return "clone_keep_id"
                 except Exception:
                     return None
+    elif op in ("link", "link_type"):
+        # a Section that resolved a link (is_merged) is validated like any other
+        if len(secs) >= 2:
+            x, y = secs[a % len(secs)], secs[b % len(secs)]
+            if x is not y and x not in snap.reachable([y]) and y not in snap.reachable([x]):
+                try:
+                    x.link = y.get_path()
+                except Exception:
+                    return None
+                if op == "link_type":
+                    x.type = [None, "", "n.s."][c % 3]
+                return op if x.is_merged else None
     elif op == "type":
         if secs:
             secs[a % len(secs)].type = [None, "", "n.s.", "N.S.", " "][c % 5]
